@@ -97,7 +97,7 @@ func c20Once(p *Prog, r *Report, mw mwSpec, t *types.Named, fn *ssa.Function) {
 			return relayWH != nil && in == relayWH
 		}
 		hij := map[*ssa.Return]bool{}
-		for _, tt := range BoolTests(fn, func(v ssa.Value) bool { return b.recField(v, "hijacked") }) {
+		for _, tt := range BoolTests(fn, func(v ssa.Value) bool { return b.recField(v, recRole(p, "hijacked")) }) {
 			for _, ret := range Returns(fn) {
 				if OnlyViaEdge(fn, ret, tt.True) {
 					hij[ret] = true
@@ -210,7 +210,7 @@ func c20HandedDown(p *Prog, r *Report, mw mwSpec, t *types.Named, fn *ssa.Functi
 				// recorder with responseWriter = w
 				for _, ref := range *y.Referrers() {
 					if fa, ok := ref.(*ssa.FieldAddr); ok {
-						if _, f, _, ok := fieldOf(fa); ok && f == "responseWriter" {
+						if _, f, _, ok := fieldOf(fa); ok && f == recRole(p, "responseWriter") {
 							for _, r2 := range *fa.Referrers() {
 								if st, ok := r2.(*ssa.Store); ok && st.Val == ssa.Value(pw) {
 									okW, wd = true, "the buffer's recorder around the incoming writer"
@@ -377,7 +377,7 @@ func c20Wrappers(p *Prog, r *Report) {
 	bw := p.Named("buffer", "bufferWriter")
 	if bw != nil {
 		for _, name := range []string{"Hijack", "CloseNotify"} {
-			checkDelegate(p, r, "C20.R3", bw, "responseWriter", name)
+			checkDelegate(p, r, "C20.R3", bw, recRole(p, "responseWriter"), name)
 		}
 		if hj := p.MethodOf(bw, "Hijack"); hj != nil {
 			var hc *ssa.Call
@@ -388,7 +388,7 @@ func c20Wrappers(p *Prog, r *Report) {
 					}
 				}
 			}
-			for _, st := range FieldStores(hj, bw, "hijacked") {
+			for _, st := range FieldStores(hj, bw, recRole(p, "hijacked")) {
 				ok := false
 				if hc != nil {
 					for _, t := range NilTests(hj, resultValue(hc, 2)) {
@@ -466,17 +466,27 @@ func c20Tables(p *Prog, r *Report) {
 	checkErrTable(p, r, "C20.R4", p.Method("connlimit", "ConnErrHandler", "ServeHTTP"), "connlimit.(*ConnErrHandler).ServeHTTP: MaxConnError -> 429", "MaxConnError", 429, true)
 	checkErrTable(p, r, "C20.R4", p.Method("ratelimit", "RateErrHandler", "ServeHTTP"), "ratelimit.(*RateErrHandler).ServeHTTP: MaxRateError -> 429", "MaxRateError", 429, true)
 	checkErrTable(p, r, "C20.R4", p.Method("buffer", "SizeErrHandler", "ServeHTTP"), "buffer.(*SizeErrHandler).ServeHTTP: MaxSizeReachedError -> 413", "MaxSizeReachedError", 413, true)
-	checkErrTable(p, r, "C20.R4", p.Method("cbreaker", "fallback", "ServeHTTP"), "cbreaker default fallback: 503", "", 503, false)
-	// the breaker's default fallback is installed by default
+	// the breaker's default fallback: the package-level handler the constructor stores into the fallback-role field
 	if nf := p.Func("cbreaker", "New"); nf != nil {
-		ok := false
 		cb := p.Named("cbreaker", "CircuitBreaker")
-		for _, st := range FieldStores(nf, cb, "fallback") {
-			if globalOf(st.Val) == modPath+"/cbreaker.defaultFallback" {
-				ok = true
+		var def *ssa.Function
+		if cb != nil {
+			fbOpt := fieldSetByOption(p, "cbreaker", "Fallback", cb)
+			ff := fieldByRole(cb, "fallback", func(t types.Type) bool { return isHTTPHandlerType(t) }, func(f string) bool { return f == fbOpt })
+			for _, st := range FieldStores(nf, cb, ff) {
+				v := stripConv(st.Val)
+				if u, ok := v.(*ssa.UnOp); ok {
+					v = u.X
+				}
+				if g, ok := v.(*ssa.Global); ok && g.Pkg != nil && g.Pkg.Pkg.Path() == modPath+"/cbreaker" {
+					if n := derefNamed(g.Type().(*types.Pointer).Elem()); n != nil {
+						def = p.MethodOf(n, "ServeHTTP")
+					}
+				}
 			}
 		}
-		r.Check(ok, "C20.R4", "cbreaker.New: default fallback installed", p.FuncPos(nf), "fallback = defaultFallback", "the breaker has no default fallback")
+		r.Check(def != nil, "C20.R4", "cbreaker.New: default fallback installed", p.FuncPos(nf), "the fallback field is initialised with the package's default fallback handler", "the breaker has no default fallback")
+		checkErrTable(p, r, "C20.R4", def, "cbreaker default fallback: 503", "", 503, false)
 	}
 	// default error handlers wired by the constructors
 	for _, spec := range [][3]string{{"connlimit", "ConnLimiter", "ConnErrHandler"}, {"ratelimit", "TokenLimiter", "RateErrHandler"}, {"buffer", "Buffer", "SizeErrHandler"}} {
